@@ -289,7 +289,13 @@ ItCheck(s, R, orc) ==
 (* earlier one) is kept by removing entries with an equal key first.        *)
 
 KeyOf(e) == <<e[1], e[2], e[3], e[4], e[5], e[6]>>
-Put(S, e) == {x \in S : KeyOf(x) # KeyOf(e)} \cup {e}
+\* add_to_stats replaces; increment_stats (LogSDCIterations, type "k") adds to the value already stored under the key
+Incremented == {"k"}
+Put(S, e) ==
+    LET old == {x \in S : KeyOf(x) = KeyOf(e)}
+    IN IF e[1] \in Incremented /\ old # {}
+       THEN (S \ old) \cup {<<e[1], e[2], e[3], e[4], e[5], e[6], e[7] + (CHOOSE x \in old : TRUE)[7]>>}
+       ELSE (S \ old) \cup {e}
 RECURSIVE PutAll(_, _)
 PutAll(S, q) == IF q = <<>> THEN S ELSE PutAll(Put(S, Head(q)), Tail(q))
 
@@ -305,7 +311,11 @@ PostStepEntries(s, p) ==
        <<"_recomputed", t + dt[p], -1, s.riar[p], -1, -1, r>>,
        <<"restart", t, s.iter[p], s.riar[p], p, sw, r>>,
        <<"dt", t, s.iter[p], s.riar[p], p, sw, dt[p]>>,
-       <<"u", t + dt[p], s.iter[p], s.riar[p], p, sw, 0>> >>
+       <<"u", t + dt[p], s.iter[p], s.riar[p], p, sw, 0>>,
+       \* LogWork / LogSDCIterations: keyed by the END time of the step (the recorded amount of work is compared with the calls
+       \* actually made in the trace specification, clause stats.work_counters)
+       <<"work_rhs", t + dt[p], s.iter[p], s.riar[p], p, sw, 0>>,
+       <<"k", t + dt[p], s.iter[p], s.riar[p], p, sw, s.iter[p]>> >>
 
 \* DefaultHooks.post_iteration: every running step with iter > 0 records its residual, keyed by its own restart count
 IterEntries(s0) ==
@@ -330,11 +340,13 @@ FilterRecomputed(S, T) ==
     IF T = "_recomputed" THEN KeepLatest(OfType(S, T))
     ELSE {e \in KeepLatest(OfType(S, T)) : e[2] \notin RecomputedTimes(S)}
 
+EndKeyed == {"u", "work_rhs", "k"}
+PerStepTypes == {"niter", "restart", "dt", "u", "work_rhs", "k"}
 \* C14: after filtering out recomputed values exactly the records of the accepted steps are left:
 \* one record per accepted step and type, keyed by its start time (end time for "u")
 OnePerAccepted(S, T, accs) ==
     LET F == FilterRecomputed(S, T)
-        key(a) == IF T = "u" THEN a.t + a.dt ELSE a.t
+        key(a) == IF T \in EndKeyed THEN a.t + a.dt ELSE a.t
     IN /\ Cardinality(F) = Len(accs)
        /\ \A i \in 1 .. Len(accs) : Cardinality({e \in F : e[2] = key(accs[i])}) = 1
 \* filter_stats(stats, recomputed=False) WITHOUT a type: superseded generations are removed per type, then everything at
@@ -669,7 +681,7 @@ RetryBudgetRiar == \A i \in 1 .. Len(RejectedFirst) : RejectedFirst[i].riar < MA
 CrashOnlyAfterBudget == phase = "crashed" => (CRASH /\ st.riar[0] >= MAXR)
 
 \* ---- C14: statistics ----
-StatsOnePerStep == phase = "finished" => \A T \in {"niter", "restart", "dt", "u"} : OnePerAccepted(stats, T, acc)
+StatsOnePerStep == phase = "finished" => \A T \in PerStepTypes : OnePerAccepted(stats, T, acc)
 StatsNiter == phase = "finished" => NiterRecorded(stats, acc)
 StatsIterRecords == phase = "finished" => IterRecordsMatch(stats, acc)
 
